@@ -166,10 +166,24 @@ type Script struct {
 	LingerMs   int  `json:"linger_ms,omitempty"`   // sleep between stdin EOF and exit
 }
 
-// Plugin is a named script.
+// Plugin is a named script. Several plugins of one host run may carry the same
+// Name: they are instances of one plugin executable started with different
+// arguments (-p "doc --lang=en" -p "doc --lang=de"), told apart by Instance
+// (passed as --instance=<Instance>; at most one of them may leave it empty).
+// All of them answer the handshake with Name.
 type Plugin struct {
-	Name   string `json:"name"`
-	Script Script `json:"script"`
+	Name     string `json:"name"`
+	Instance string `json:"instance,omitempty"`
+	Script   Script `json:"script"`
+}
+
+// ID names the plugin process in the event log and selects its script file:
+// Name, or Name@Instance.
+func (p Plugin) ID() string {
+	if p.Instance == "" {
+		return p.Name
+	}
+	return p.Name + "@" + p.Instance
 }
 
 // StepOf returns the step called name.
@@ -185,7 +199,7 @@ func (s *Script) StepOf(name string) *Step {
 
 // Event is one line of the event log.
 type Event struct {
-	Plugin string `json:"plugin"`
+	Plugin string `json:"plugin"` // Plugin.ID of the process
 	Pid    int    `json:"pid"`
 	N      int    `json:"n"` // per-process counter
 	T      int64  `json:"t"` // unix nanoseconds (informational only)
